@@ -9,7 +9,7 @@
 
 use crate::ev;
 use crate::simkit::shrink::drop_chunks;
-use crate::simkit::{CheckDef, Ctx, Rng, RunReport, Tier, sim_runtime};
+use crate::simkit::{CheckDef, Ctx, Rng, RunReport, Tier, install_panic_recorder, sim_runtime, take_panics};
 use crate::simnet::{self, Frame};
 use saorsa_core::dht_network_manager::{DhtMessageType, DhtNetworkMessage, DhtNetworkOperation, DhtNetworkResult};
 use saorsa_core::network::P2PEvent;
@@ -87,6 +87,8 @@ enum Outcome { Ok(String), Err(String), Cancelled }
 
 fn execute(sc: &Value) -> RunReport {
     let seed = sc["seed"].as_u64().unwrap_or(0);
+    install_panic_recorder();
+    let _ = take_panics();
     let rt = sim_runtime(seed);
     let mut ctx = Ctx::new();
     rt.block_on(async {
@@ -261,7 +263,13 @@ fn execute(sc: &Value) -> RunReport {
                 }
                 let Some(real_id) = id else { return };
                 tokio::time::sleep(Duration::from_millis(after)).await;
-                let use_id = if kind == "unknown_id" { format!("00000000-dead-4bad-8bad-{:012x}", fi) } else { real_id };
+                // an identifier nobody issued is the forger's to choose: a UUID look-alike, or empty / long /
+                // multi-byte characters straddling the lengths code likes to cut at
+                let use_id = if kind == "unknown_id" {
+                    let mut hr = Rng::new(seed ^ 0x1d ^ ((fi as u64) << 20));
+                    let style = *hr.pick(&["plain", "plain", "uni_at_36", "uni_at_36", "uni_at_36", "uni_random", "empty", "long_ascii", "long_uni", "nul"]);
+                    if style == "plain" { format!("00000000-dead-4bad-8bad-{:012x}", fi) } else { let shift = hr.usize_below(8); super::c05::hostile_string(style, "x", shift, &mut hr) }
+                } else { real_id };
                 let frame = if is_dht {
                     let mut key = [0u8; 32];
                     key[0] = 0xC4;
@@ -419,6 +427,10 @@ fn execute(sc: &Value) -> RunReport {
             if refused + 256 < 300 {
                 ctx.violate("C04.cap.requests_beyond_cap_not_refused_immediately", "", format!("300 simultaneous requests: only {refused} were refused immediately"));
             }
+        }
+        // a panic inside a spawned handler is swallowed by the runtime; the recorder has it
+        for p in take_panics() {
+            ctx.violate("C04.panic.in_reply_handling", "", p.chars().take(300).collect::<String>());
         }
         // ---- pending tables at quiescence
         for (i, nd) in nodes.iter().enumerate() {
